@@ -458,6 +458,8 @@ R.contract(
     # (the bound on the number of ranges follows from the other clauses by counting; a Python list cannot be that long)
     requires=["1 <= len(RL(rangeset)) <= 4611686018427387904", "sel(RL(rangeset), 0).start >= 0", "sel(RL(rangeset), len(RL(rangeset)) - 1).stop <= 4611686018427387904", "0 <= delay <= 4611686018427387903"],
     raises={"BufferWriteError": None},
+    # it fails only when the worst-case size of the frame body (2n+2 varints of 8 bytes) does not fit
+    on_raise={"BufferWriteError": ["old(buf.g_pos) + 16 * n_ + 16 > buf.g_cap"]},
     modifies=["buf.g_pos", "buf.g_mem"],
     ensures=[
         "result == n_",
@@ -466,6 +468,9 @@ R.contract(
         "g_off[0] == old(buf.g_pos) and g_off[2 * n_ + 2] == buf.g_pos",
         "ack_written(buf.g_mem, g_off, R_, n_, delay, 0, 2 * n_ + 2)",
         "mem_eq_outside(buf, old(buf.g_pos), buf.g_pos)",
+        # size: 2n+2 varints of at most 8 bytes (what QuicConnection._write_ack_frame has to announce to the packet builder)
+        "buf.g_pos - old(buf.g_pos) <= 16 * n_ + 16",
+        "buf.g_pos > old(buf.g_pos)",
     ],
     ghost_at={
         "buf.push_uint_var(r.stop - 1)": {"g_off": "amap(lambda x: buf.g_pos)", "g_img": "amap(lambda k: 0)", "g_val": "amap(lambda k: 0)"},
@@ -504,6 +509,7 @@ R.contract(
     loops={0: dict(invariant=[
         "0 <= index <= ranges - 1 and ranges == n_", "same(RL(rangeset), R_)", "start == sel(R_, index).start",
         "buf.g_cap == old(buf.g_cap)", "mem_eq_outside(buf, old(buf.g_pos), buf.g_pos)",
+        "buf.g_pos - old(buf.g_pos) <= 8 * (4 + 2 * (ranges - 1 - index))",
         "g_off[0] == old(buf.g_pos) and g_off[4 + 2 * (ranges - 1 - index)] == buf.g_pos",
         "forall(lambda k: implies(old(buf.g_pos) <= k < buf.g_pos, elem(buf.g_mem, k) == g_img[k]))",
         "vals_written(g_img, g_off, g_val, 0, 4 + 2 * (ranges - 1 - index))",
